@@ -1002,6 +1002,25 @@ def _entry_is_zero(p):
     raise ValueDependent("a comparison whose outcome depends on parameter values: %s" % p.short(60))
 
 
+SPLIT_LOG = []      # parameter-name sets on which the code tested "is this tensor identically zero" (case split by re-run)
+
+
+def _param_names(A_):
+    """names of the parameters if every entry of the array is a plain parameter (or 0), else None"""
+    names = []
+    for i in np.ndindex(*A_.shape):
+        p = A_[i]
+        if not p.t:
+            continue
+        if len(p.t) != 1:
+            return None
+        (m, c), = p.t.items()
+        if len(m) != 1 or m[0][1] != 1 or alg.atom(m[0][0]).kind != "par" or c != 1:
+            return None
+        names.append(alg.atom(m[0][0]).key[1])
+    return names
+
+
 @H("all")
 def _all(a, *args, **k):
     if args or k:
@@ -1015,7 +1034,17 @@ def _any(a, *args, **k):
     if args or k:
         raise ValueDependent("any() along a dimension of a symbolic tensor")
     A_ = _obj(a)
-    return _real_tensor(any(not _entry_is_zero(A_[i]) for i in np.ndindex(*A_.shape)))
+    try:
+        return _real_tensor(any(not _entry_is_zero(A_[i]) for i in np.ndindex(*A_.shape)))
+    except ValueDependent:
+        names = _param_names(A_)
+        if not names:
+            raise
+        # "are these parameters all exactly zero?": the generic answer is no; the special case is decided by a second run
+        # of the whole configuration with exactly these parameters held at 0 (cli._worker)
+        if sorted(names) not in SPLIT_LOG:
+            SPLIT_LOG.append(sorted(names))
+        return _real_tensor(True)
 
 
 @H("equal")
